@@ -67,7 +67,7 @@ CHECKS = {
              "bloc command (file and stdin). Oracle: the outcome is completion, a parse error or a runtime error; no signal, no ASan/UBSan report, no "
              "foreign exception, no step-budget hit without a loop, no CPU-watchdog hang."
              ' Added families: every outer loop form x inner construct locking the same table x mutation of the iterated table x use of the iterator (1200 programs); scripts that read standard input (readln, read, input) x inputs sized around the internal buffers through the bloc command.'
-             ' Round 3: the same vocabulary with every operand handed over through an untyped function parameter (only run-time guards apply), tables of every element type in the alphabet. Round 5: 27 valid and malformed patterns of matches; opaque operands on either side of every two-argument built-in in quick.',
+             ' Round 3: the same vocabulary with every operand handed over through an untyped function parameter (only run-time guards apply), tables of every element type in the alphabet. Round 5: 27 valid and malformed patterns of matches; opaque operands on either side of every two-argument built-in in quick. Round 8: set@N through an untyped parameter for ranks at and beyond the size of every tuple of the alphabet.',
         note="trusted: clang 14 ASan+UBSan; size arguments capped at 65536 (allocation exhaustion is outside the property's domain); texts outside the alphabets are not covered",
         design="DESIGN.md section 4, C01"),
     "C08": dict(
@@ -112,7 +112,7 @@ CHECKS = {
              "tuple declarations of <=3 (quick, neighbourhood) / <=4 (thorough, all pairs) items over 6 item types are checked pairwise for type identity, "
              "and every mutator of a table under forall must be refused at compile time."
              ' Added: item / element expressions whose value changes from one evaluation to the next (11^3 sequences through tab, concat, put, insert): refused or uniform; level 1 also against the gcc -O2 build.'
-             ' Rows of a table of tables (one of them null) receiving what an opaque function hands back; containers made for objects of one module never hold objects of another (C17\'s wrong-module programs). Iterated-row lock family (shared with C06); typed declarations through a forall iterator (9 types x 4 tables x 3 wrappers) leave the table uniform. Round 5: refused-unchanged: 11 receivers (null row, null table, elements) x 5 mutators x 13 offending values: a refusal leaves every container as it was. Round 6: whatever is built from a copy of a container (7 sources x 6 ways to copy x 10 uses) equals what is built from the original; the 254-dimension limit through 6 constructors.',
+             ' Rows of a table of tables (one of them null) receiving what an opaque function hands back; containers made for objects of one module never hold objects of another (C17\'s wrong-module programs). Iterated-row lock family (shared with C06); typed declarations through a forall iterator (9 types x 4 tables x 3 wrappers) leave the table uniform. Round 5: refused-unchanged: 11 receivers (null row, null table, elements) x 5 mutators x 13 offending values: a refusal leaves every container as it was. Round 6: whatever is built from a copy of a container (7 sources x 6 ways to copy x 10 uses) equals what is built from the original; the 254-dimension limit through 6 constructors. Round 8: the refused-unchanged family also offers decimals that no integer can hold (the conversion fails after the type checks).',
         note="trusted: the Python list model; containers above 5 elements are not expanded; 48 tuple-declaration hash collisions are recorded findings (KNOWN_FINDINGS.txt)",
         design="DESIGN.md section 4, C09"),
     "C05": dict(
@@ -126,7 +126,7 @@ CHECKS = {
              "calls that mutate or return their parameter, and forall writes, for strings, bytes, tables (incl. tables of tables) and tuples; states are "
              "canonical dumps, and in every state the dump of {a, b, t, u} must equal a Python deep-copy model."
              ' (c) operand kinds: 130 typed signatures x {constant, variable, temporary, table element, tuple item, function result} per argument, each compared with its all-constant form in the same context, variables unchanged, re-evaluation in an unchanged state, and the same with an in-place method chained on the result; (d) storage locations (variable, forall iterator, for variable, parameter, local, table element, tuple item, returned value) x source kind x 56 reader expressions. (c) and (d) also against the gcc -O2 build.'
-             ' The alias search includes `return a / t / u / t.at(0)` steps (the host goes on using the context). Named constants (phi, pi, ee) are atoms of the vocabulary like literals. Round 6: one argument null (constant, variable) next to stored values in the other places, for every signature.',
+             ' The alias search includes `return a / t / u / t.at(0)` steps (the host goes on using the context). Named constants (phi, pi, ee) are atoms of the vocabulary like literals. Round 6: one argument null (constant, variable) next to stored values in the other places, for every signature. Round 8: a sixth value type, table (as argument of tab / put / insert / concat on temporaries and variables, and as receiver), in the operand-kind product.',
         note="trusted: the deep-copy model; impure builtins (random, read, readln, input, getsys, getenv) are excluded from (a); objects are shared by design (C17)",
         design="DESIGN.md section 4, C05"),
     "C11": dict(
@@ -142,7 +142,7 @@ CHECKS = {
              "texts) must behave identically in the disturbed context and in an undisturbed twin. Thorough adds two more prefixes, all three routes for "
              "every text and chains of two rejected texts."
              ' Added: rejected texts declaring several functions or one function twice before the error; structured variables re-typed with another rank; texts that include a file (which redefines functions) successfully and fail later.'
-             ' Type-safe ($) variables holding tables and tuples assigned another structure by the rejected text. Rejected texts that give one variable two or three other types in a row; probe programs whose acceptance depends on each declared type. Round 5: path expressions of include / import with side effects in rejected texts (recorded finding, narrow key). Round 6: on the statement-wise route the prefix is compiled statement by statement too.',
+             ' Type-safe ($) variables holding tables and tuples assigned another structure by the rejected text. Rejected texts that give one variable two or three other types in a row; probe programs whose acceptance depends on each declared type. Round 5: path expressions of include / import with side effects in rejected texts (recorded finding, narrow key). Round 6: on the statement-wise route the prefix is compiled statement by statement too. Round 8: variables that already have the type a for / forall gives its control variable, texts that iterate with them, probes that iterate with them again and re-type them.',
         note="trusted: differential twin; names introduced only by the rejected text are ignored, as the property allows",
         design="DESIGN.md section 4, C11"),
     "C12": dict(
@@ -169,7 +169,7 @@ CHECKS = {
              "command's file and stdin readers, against the same tokens one per line. Oracle: token stream (code, text), parse verdict and message, unparsed "
              "program and program output are equal to the reference delivery."
              ' Added routes for the long-line and line-length families: the reader of the include statement and the reader of the interactive mode.'
-             ' Lexemes aligned across byte 64 x 1023 (16, 65, 128 x 1023 in thorough) with blank padding. Byte content: sequences over EF BB BF (8 bytes in thorough) inside a literal at reader boundaries (line offsets around 1023 k, continuation lines) through bloc file and bloc -. Round 5: bloc_parse_expression with a line end (LF, CRLF) after any token of 12 expressions. Round 6: expressions ended by a line end or by nothing.',
+             ' Lexemes aligned across byte 64 x 1023 (16, 65, 128 x 1023 in thorough) with blank padding. Byte content: sequences over EF BB BF (8 bytes in thorough) inside a literal at reader boundaries (line offsets around 1023 k, continuation lines) through bloc file and bloc -. Round 5: bloc_parse_expression with a line end (LF, CRLF) after any token of 12 expressions. Round 6: expressions ended by a line end or by nothing. Round 8: every text in LF and in CRLF layout also through the reader of the include statement; texts with multi-line strings.',
         note="trusted: the unsplit delivery as reference; // and # comments are line-anchored and are not joined onto long lines; a custom reader that passes CR through is compared with itself only",
         design="DESIGN.md section 4, C13"),
     "C02": dict(
@@ -270,7 +270,7 @@ CHECKS = {
              "transcripts (prompts, echo, banner, Elapsed removed) print the same lines in the same order as the library's statement-at-a-time run; a saved "
              "session run again prints the same and saving the loaded session gives the same text."
              ' Added: 12 source bytes x 6 places through file / stdin / --out, option-like program arguments (-e, -i, --parse, --out=), a missing --out file is a violation, save / load sessions from the C12 statement programs.'
-             ' 33 compile errors at places computed from the text (after block / line comments, multi-line strings, tabs, blank lines, inside a loop) compared with the reported line:column. Argument vectors that repeat a word or contain the program operand (file, relative file, -); returned / -e strings containing %. Round 5: -e with one word / many words / --out, expressions beginning with a minus sign, words after a complete expression; every console command word as a variable in 7 statement forms; calls of functions named like commands. Round 6: equal signs inside the --out path; physical lines of 900 .. 3100 bytes through the interactive reader. Round 7: returned nulls of every type.',
+             ' 33 compile errors at places computed from the text (after block / line comments, multi-line strings, tabs, blank lines, inside a loop) compared with the reported line:column. Argument vectors that repeat a word or contain the program operand (file, relative file, -); returned / -e strings containing %. Round 5: -e with one word / many words / --out, expressions beginning with a minus sign, words after a complete expression; every console command word as a variable in 7 statement forms; calls of functions named like commands. Round 6: equal signs inside the --out path; physical lines of 900 .. 3100 bytes through the interactive reader. Round 7: returned nulls of every type. Round 8: every option word of the tool, --, --version and = as arguments that follow the program.',
         note="trusted: the library run as reference; the ASan build of the bloc executable; terminal colour codes are stripped",
         design="DESIGN.md section 4, C19"),
     "C15": dict(
